@@ -93,11 +93,14 @@ enum Op {
     /// the harness touches no file. It must come up with the state of the last checkpoint that was
     /// written successfully (empty if there is none)
     Restart,
+    /// the same manager loads the newest checkpoint of its directory again (`find_latest_lru_file`
+    /// + `load_from_disk`): it goes back to that checkpoint's state, whatever it did since
+    LoadLatest,
 }
 
 impl Op {
     fn uses_dir(&self) -> bool {
-        matches!(self, Op::Checkpoint | Op::Reload | Op::RunCycle { .. } | Op::Shutdown { .. } | Op::Restart)
+        matches!(self, Op::Checkpoint | Op::Reload | Op::RunCycle { .. } | Op::Shutdown { .. } | Op::Restart | Op::LoadLatest)
     }
 }
 
@@ -787,6 +790,33 @@ fn check_inner(c: &Case, known: &Known, replay: bool) -> Verdict {
                     break 'ops;
                 }
             }
+            Op::LoadLatest => {
+                opname = "load_latest";
+                match (LruManager::find_latest_lru_file(&dir_path), &disk) {
+                    (None, None) => {}
+                    (None, Some(_)) => {
+                        specific = Some(("C17:lru:load_latest:checkpoint-file-missing".into(), "a checkpoint was written successfully, find_latest_lru_file finds no file".to_string()));
+                    }
+                    (Some((g, _)), d) => {
+                        if let Err(e) = block_on(mgr.load_from_disk(g)) {
+                            specific = Some(("C17:lru:load_latest:load-failed".into(), format!("load_from_disk({g:#x}): {e}")));
+                        } else {
+                            model.q = d.clone().unwrap_or_default();
+                            leaked = 0;
+                            f.reloaded = true;
+                            if c.zero_key && model.q.contains(&0) {
+                                f.zero_reloaded = true;
+                                zload_context = true;
+                            }
+                        }
+                    }
+                }
+                let st = cmp_state(&observe(&mgr, &keys, cap), &model.q, c, &keys);
+                if let Some(s) = finish_op(opname, ix, c, st, specific, zload_context, known, &mut hits) {
+                    outcome = s;
+                    break 'ops;
+                }
+            }
             Op::Restart => {
                 opname = "restart";
                 mgr = LruManager::new(cap as u32, dir_path.clone());
@@ -1024,6 +1054,7 @@ fn lifecycle_cases(max_len: usize) -> Box<dyn Iterator<Item = Case> + Send> {
         vec![Op::Shutdown { fail: false }],
         vec![Op::Shutdown { fail: true }],
         vec![Op::Restart],
+        vec![Op::LoadLatest],
     ];
     let starts: Vec<(Option<u64>, Vec<Vec<Op>>)> = vec![
         (None, plain.clone()),
@@ -1056,6 +1087,7 @@ enum RawOp {
     Reset,
     Shutdown { fail: bool },
     Restart,
+    LoadLatest,
 }
 
 const AVGS: [u64; 4] = [1, 7, 100, 4096];
@@ -1086,6 +1118,7 @@ fn resolve(r: &RawOp, cap: u32, pool: u16) -> Op {
         RawOp::Reset => Op::Reset,
         RawOp::Shutdown { fail } => Op::Shutdown { fail },
         RawOp::Restart => Op::Restart,
+        RawOp::LoadLatest => Op::LoadLatest,
     }
 }
 
@@ -1149,6 +1182,7 @@ fn raw_op(profile: u8) -> BoxedStrategy<RawOp> {
             1 => Just(RawOp::Reset),
             8 => any::<bool>().prop_map(|fail| RawOp::Shutdown { fail }),
             8 => Just(RawOp::Restart),
+            6 => Just(RawOp::LoadLatest),
         ]
         .boxed(),
     }
